@@ -33,7 +33,7 @@ def run(chk):
     chk.section('simple_kernels', simple_kernels, mod)
     chk.section('two_theta_contract', two_theta_contract, mod)
     lemmas(chk)
-    tables(chk)
+    chk.section('graph tables', tables)
     accuracy_bounded(chk)
 
 
